@@ -17,6 +17,7 @@ hook, see harness/props/c17.py.  The command-line half:
 -/
 import Dippy.Model.PyCli
 import Dippy.Lemmas.PyWalk
+import Dippy.Lemmas.PyFile
 import Dippy.Generated.PyAst
 
 namespace Dippy.C17
@@ -575,6 +576,63 @@ example :
           .node (.mk "Name" 1 [("id", .str "eval"), ("ctx", .node (.mk "Load" 0 []))]))])])])])])),
         ("body", .list [.node (.mk "Pass" 2 [])])])])]) := by
   decide +kernel
+
+/-! ### from the command line to the nodes of the script
+
+`PyFile.analyzeFile` is `analyze_python_file` over what the file system, the decoder and `ast.parse` answered for
+a path (`FileFacts`, recorded by T1 from the real run).  With the handler's `fileSafe` oracle instantiated by it,
+an approved `python …` command that runs a script runs a file whose *every* node passed its check. -/
+
+open Dippy.PyFile in
+/-- the handler's environment, with the file analysis spelled out -/
+def fileEnv (resolve : String → String → String) (facts : String → FileFacts) : Env :=
+  { resolve := resolve
+    fileSafe := fun p => (analyzeFile srcTables scriptSuffixes sizeLimit cookieNameChar (facts p)).isSafe }
+
+open Dippy.PyFile in
+/-- **C17, syntactic half, end to end**: if `python ARGS` is auto-approved and CPython's argv grammar says it runs the
+    script word `s`, then the file `s` resolves to (in the command's cwd) exists, is a regular `.py`/`.pyw` file within
+    the size limit, decodes as UTF-8 with no other declared encoding, parses, has no import shadowed by a sibling –
+    and in its tree no node at any depth fails its check: no import outside the safe list, no reference to a refused
+    builtin, no reflection attribute, no dangerous method reference, no async construct. -/
+theorem approved_command_runs_checked_script (resolve : String → String → String) (facts : String → FileFacts)
+    (cwd py : String) (l : List String) (s : String) (args : List String)
+    (h : (classify (fileEnv resolve facts) cwd (py :: l)).allowed = true)
+    (hr : pythonRuns false l = .script s args) :
+    ∃ tree, (facts (resolve cwd s)).tree = some tree ∧ Approved tree
+      ∧ (∀ n, Desc tree n → localViolations srcTables true n = [])
+      ∧ (∀ r ∈ importRoots tree, (facts (resolve cwd s)).shadowed r = false)
+      ∧ scriptSuffixes.contains (facts (resolve cwd s)).suffix = true
+      ∧ (∃ sz, (facts (resolve cwd s)).size = some sz ∧ sz ≤ sizeLimit) := by
+  have hrun := runs_analysed_file (fileEnv resolve facts) cwd py l h
+  rw [hr] at hrun
+  have hsafe : (analyzeFile srcTables scriptSuffixes sizeLimit cookieNameChar (facts (resolve cwd s))).isSafe = true := hrun
+  have hs : analyzeFile srcTables scriptSuffixes sizeLimit cookieNameChar (facts (resolve cwd s)) = .safe := by
+    cases hv : analyzeFile srcTables scriptSuffixes sizeLimit cookieNameChar (facts (resolve cwd s)) with
+    | safe => rfl
+    | refused r => rw [hv] at hsafe; cases hsafe
+  obtain ⟨_, _, hsuf, hsz, src, tree, _, _, htree, hvis, hsh⟩ := safe_means _ _ _ _ _ hs
+  exact ⟨tree, htree, hvis, fun n hd => approved_covers tree n hvis hd, hsh, hsuf, hsz⟩
+
+/-- non-vacuity of the file model: a small safe script next to nothing … -/
+example :
+    PyFile.analyzeFile srcTables scriptSuffixes sizeLimit PyFile.cookieNameChar
+      { pathExists := true, isFile := true, suffix := ".py", size := some 12, source := some "import json\n",
+        tree := some (.mk "Module" 0 [("body", .list [.node (.mk "Import" 1 [("names", .list [.node (.mk "alias" 1 [("name", .str "json")])])])])]),
+        shadowed := fun _ => false } = .safe := by decide +kernel
+
+/-- … the same script next to a `json.py` -/
+example :
+    PyFile.analyzeFile srcTables scriptSuffixes sizeLimit PyFile.cookieNameChar
+      { pathExists := true, isFile := true, suffix := ".py", size := some 12, source := some "import json\n",
+        tree := some (.mk "Module" 0 [("body", .list [.node (.mk "Import" 1 [("names", .list [.node (.mk "alias" 1 [("name", .str "json")])])])])]),
+        shadowed := fun r => r == "json" } = .refused "local module shadows import: json" := by decide +kernel
+
+/-- … and with a coding cookie that makes the interpreter read other text than the analysed one -/
+example :
+    PyFile.foreignCookie PyFile.cookieNameChar "#!/usr/bin/python\n# -*- coding: latin-1 -*-\nimport json\n" = some "latin-1"
+      ∧ PyFile.foreignCookie PyFile.cookieNameChar "# vim: set fileencoding=UTF_8 :\nx = 1\n" = none
+      ∧ PyFile.foreignCookie PyFile.cookieNameChar "x = 1\n\n# coding: latin-1\n" = none := by decide +kernel
 
 end checker
 
